@@ -205,9 +205,83 @@ def _overflow(ctx) -> None:
             ctx.ob("UNBOUNDED-INT.convert", "parser.parse/handler", ok, "the OverflowError handler must re-raise ParserError", pm.loc(h))
 
 
-def _interval_types(ctx) -> None:
+def _interval_types_tabulate(ctx, m, fn, accepts: bool = False) -> bool:
+    """CAST-UNION, decided on values: _parse_iso8601_interval is evaluated with the checker's interpreter for every
+    combination of what parse_iso8601() can hand back for the two halves (a `P...` half: a Duration; any other half: a
+    datetime, a date or a time - stubs that only know their kind).  Every combination must end in ParserError or in
+    _Interval(start, end, duration) whose bounds are dates (datetimes when a duration is applied to them) and whose
+    duration is None or a Duration; the three well-formed shapes must be accepted.  False: outside the interpreter."""
+    from ..rules import minieval
+    KINDS = {"datetime": ("datetime", "date"), "date": ("date",), "time": ("time",), "Duration": ("Duration", "timedelta")}
+
+    def klass(name):
+        return minieval.ClassStub(_new=lambda *a, **k: (_ for _ in ()).throw(core.Unsupported(f"{name}() constructed")),
+                                  _isa=lambda v, n=name: isinstance(v, minieval.Stub) and n in KINDS.get(getattr(v, "_kind", ""), ()))
+    funcs = {st.name: st for st in m.top() if isinstance(st, ast.FunctionDef)}
+    texts = {"datetime": "2000-01-01T10:00:00", "date": "2000-01-01", "time": "10:00:00", "Duration": "P1D"}
+    bad: dict[str, str] = {}
+    accepted = set()
+    n = 0
+    try:
+        for k1 in KINDS:
+            for k2 in KINDS:
+                t1, t2 = texts[k1], texts[k2].replace("2000", "2001").replace("P1D", "P2D")
+                vals = {t1: minieval.Stub(_kind=k1, _text=t1), t2: minieval.Stub(_kind=k2, _text=t2)}
+                built = []
+
+                def mk(*a, **k):
+                    built.append((a, k))
+                    return minieval.Stub(_interval=True)
+                glob = {"parse_iso8601": minieval.ClassStub(_new=lambda t, *a, **k: vals[t], _isa=lambda v: False),
+                        "_Interval": minieval.ClassStub(_new=mk, _isa=lambda v: False), "ParserError": ValueError, "ValueError": ValueError,
+                        **{c: klass(c) for c in ("datetime", "date", "time", "Duration", "timedelta")}}
+                n += 1
+                try:
+                    got = minieval.call(fn, [f"{t1}/{t2}"], {}, {**funcs, "$globals": glob})
+                except ValueError as e:
+                    if "raise reached" in str(e):
+                        continue
+                    raise
+                if not (isinstance(got, minieval.Stub) and getattr(got, "_interval", False) and len(built) == 1):
+                    raise core.Unsupported("does not return _Interval(...)")
+                b = dict(zip(("start", "end", "duration"), built[0][0]))
+                b.update(built[0][1])
+                accepted.add((k1, k2))
+                d = b.get("duration")
+                if d is not None and getattr(d, "_kind", None) != "Duration":
+                    bad.setdefault("duration", f"for a {k1} / {k2} pair a {getattr(d, '_kind', d)!r} reaches _Interval as the duration")
+                for role in ("start", "end"):
+                    v = b.get(role)
+                    if v is None:
+                        continue
+                    kind = getattr(v, "_kind", None)
+                    need = "datetime" if d is not None else "date"
+                    if need not in KINDS.get(kind, ()):
+                        bad.setdefault(role, f"for a {k1} / {k2} pair a {kind} reaches _Interval as the {role}" +
+                                       (" next to a duration (which has to be added to it)" if d is not None else "") +
+                                       ": AttributeError/TypeError later instead of ParserError")
+    except (core.Unsupported, KeyError, TypeError, AttributeError, ValueError, IndexError, RecursionError):
+        return False
+    for want in (("datetime", "datetime"), ("Duration", "datetime"), ("datetime", "Duration"), ("date", "date")):
+        if want not in accepted:
+            bad.setdefault("accepts", f"a well-formed {want[0]} / {want[1]} interval is refused")
+    for role in ("start", "end", "duration"):
+        ctx.ob("CAST-UNION", f"_parse_iso8601_interval/{role}", role not in bad,
+               bad.get(role, f"{n} combinations of half kinds evaluated: only a date (datetime next to a duration) reaches _Interval as a bound, "
+                             f"only a Duration as the duration"), m.loc(fn))
+    if accepts:          # C13's clause (the three shapes parse); C17 only asks for ParserError or a well-typed Interval
+        ctx.ob("INTERVAL.accepts", "_parse_iso8601_interval", "accepts" not in bad, bad.get("accepts", f"accepted: {sorted(accepted)}"), m.loc(fn))
+    return True
+
+
+def _interval_types(ctx, accepts: bool = False) -> None:
     m = pmod("parsing")
     fn = m.func("_parse_iso8601_interval")
+    if _interval_types_tabulate(ctx, m, fn, accepts):
+        sp = [n for n in core.walk_fn(fn) if isinstance(n, ast.Assign) and isinstance(n.targets[0], ast.Tuple) and ".split(" in un(n.value)]
+        ctx.ob("CAST-UNION.split", "_parse_iso8601_interval/split", len(sp) == 1, "tuple-unpack of split('/') raises ValueError for != 2 parts (allowed)",
+               m.loc(fn), nontrivial=False)
+        return
     ctor = [c for c in core.calls(fn) if nun(c.func) == "_Interval"]
     if len(ctor) != 1:
         ctx.unverified("CAST-UNION", "_parse_iso8601_interval", "_Interval(...) construction not found", m.loc(fn))
